@@ -241,6 +241,10 @@ assert run_unit('process_codeflag_compressed', [[5], [5]], 4) == '0101' + '00000
 assert run_unit('process_codeflag_compressed', [[None], [None]], 4) == '1111' + '000000'
 assert run_unit('process_numeric_compressed', [[1.0], [None], [1.7]], 12, 10, -5) == \
     '{:012b}'.format(15) + '000100' + '0000' + '1111' + '0111'
+# values that agree after scaling: one field of width 0, unless an entry is missing
+assert run_unit('process_numeric_compressed', [[1.01], [1.02]], 12, 10, -5) == '{:012b}'.format(15) + '000000'
+assert run_unit('process_numeric_compressed', [[1.01], [None], [1.02]], 12, 10, -5) == \
+    '{:012b}'.format(15) + '000010' + '00' + '11' + '00'
 assert run_unit('process_numeric_compressed', [[7], [9]], 12, 1, 0) == \
     '{:012b}'.format(7) + '000011' + '000' + '010'  # range 2: the rule looks at range + 1 = 3 -> 3 bits
 assert run_unit('process_numeric_compressed', [[7], [10]], 12, 1, 0) == \
@@ -262,9 +266,12 @@ def error_of(descriptors, subsets):
 assert error_of([2003], [[1], ['x']]) == 'TypeError'          # not comparable
 assert error_of([2003], [[1.5], [2]]) == 'TypeError'          # no width for a float range
 assert error_of([2003], [[-1], [3]]) == 'ValueError'       # negative minimum cannot be written
-assert error_of([2003], [[0], [2 ** 70], [None]]) == 'IndexError'   # no missing pattern for 71 bits
+assert error_of([2003], [[0], [2 ** 255], [None]]) == 'IndexError'   # no missing pattern for 256 bits
+assert error_of([2003], [[0], [2 ** 255]]) == 'ValueError'  # width 256 does not fit 6 bits
+assert error_of([2003], [[0], [2 ** 70], [None]]) == 'ValueError'   # missing pattern for 71 bits, width does not fit 6 bits
 assert error_of([2003], [[0], [2 ** 70]]) == 'ValueError'  # width 71 does not fit 6 bits
-assert error_of([4001], [[0], [2 ** 70], [None]]) == 'IndexError'
+assert error_of([4001], [[0], [2 ** 255], [None]]) == 'IndexError'
+assert error_of([4001], [[0], [2 ** 70], [None]]) == 'ValueError'
 assert error_of([4001], [[0], ['x']]) == 'TypeError'
 assert error_of([2003], [[0], [16]]) is None                  # the encoder does not range check
 assert error_of([2003, 2003], [[0], [1, 2]]) == 'IndexError'  # short subset
